@@ -160,7 +160,7 @@ def gen_doc(rng, rich=True, nets=1):
 
 def gen_ops(ck):
     rng = ck.rng
-    nf = ck.n(24, "all")  # fault indices per op in the quick tier (spread over the trace), all of them in thorough
+    nf = ck.n(16, "all")  # fault indices per op in the quick tier (spread over the trace), all of them in thorough
     ops = []
     # --- stored witnesses first (DESIGN.md section 7): a network with an explicit input / a component that cannot
     #     be exported, written to HDF5
@@ -198,7 +198,7 @@ def gen_ops(ck):
     # by injection, or naturally because the embedded XML exceeds an HDF5 attribute - must leave the user's segments alone
     d_big_am = {"id": "bigam", "am_cells": [{"id": "c0", "n": 6001, "mid": "m0", "edited": [5, 10, 4500]}],
                 "networks": [{"id": "n", "pops": [{"id": "p0", "comp": "c0", "size": 1}]}]}
-    ops.insert(0, {"op": "xml_write_path", "doc": d_big_am, "faults": ck.n(3, 12)})
+    ops.insert(0, {"op": "xml_write_path", "doc": d_big_am, "faults": ck.n("late", 12)})
     ops.insert(1, {"op": "h5_write_embed", "doc": d_big_am, "faults": [], "must_raise": True, "or_roundtrip": True})
     # two networks: the HDF5 layout (one group "network") cannot hold them
     ops.append({"op": "h5_write_embed", "doc": gen_doc(rng, nets=2), "faults": [], "must_raise": True})
